@@ -19,8 +19,8 @@ tree_node_t *fstree_add_generic(fstree_t *fs, const sqfs_dir_entry_t *ent, const
 	(void)fs;
 	fputc(' ', rec);
 	hex_print(rec, (const unsigned char *)ent->name, strlen(ent->name));
-	fprintf(rec, " %u %llu %llu %llu ", (unsigned)ent->mode, (unsigned long long)ent->uid,
-		(unsigned long long)ent->gid, (unsigned long long)ent->rdev);
+	fprintf(rec, " %u %llu %llu %llu %u ", (unsigned)ent->mode, (unsigned long long)ent->uid,
+		(unsigned long long)ent->gid, (unsigned long long)ent->rdev, (unsigned)ent->flags);
 	if (extra == NULL)
 		fputs("NULL", rec);
 	else
